@@ -525,7 +525,7 @@ def tainted_locals(fn, seeds):
         changed = False
         for b in fn.blocks:
             for e in b["e"]:
-                if e[0] == "mv" and e[1] not in taint:
+                if e[0] in ("mv", "der") and e[1] not in taint:
                     if any(_is_tainted(x, taint) for x in TOK.findall(_norm(e[2]))):
                         taint.add(e[1])
                         changed = True
